@@ -471,7 +471,8 @@ var Faults = []Fault{
 		if ff == nil {
 			return nil, nil, false
 		}
-		ff.Args = append(ff.Args, &m.ArgDef{Name: "requiredExtra", Type: &m.Type{Name: "Int", NonNull: true}})
+		at := r.Intn(len(ff.Args) + 1) // before, between or after the interface's arguments
+		ff.Args = append(ff.Args[:at:at], append([]*m.ArgDef{{Name: "requiredExtra", Type: &m.Type{Name: "Int", NonNull: true}}}, ff.Args[at:]...)...)
 		return items, []string{impl, intf.Name}, true
 	}},
 	{"missing-transitive-interface", func(r *core.Rand, items []*m.Item) ([]*m.Item, []string, bool) {
